@@ -267,7 +267,7 @@ func NewRunner(eng, scratch string) (*Runner, error) {
 		}
 	}()
 	// the retry goroutine parks at the top of its first iteration
-	if !r.waitParked("retry", 2*time.Second) {
+	if !r.waitParked("retry", 15*time.Second) {
 		return nil, fmt.Errorf("retry goroutine did not reach its first iteration")
 	}
 	return r, nil
@@ -386,7 +386,7 @@ func (r *Runner) expectedCommitted() uint64 {
 
 func (r *Runner) settle(o *Obs) {
 	exp := r.expectedCommitted()
-	ok := lib.WaitUntil(3*time.Second, func() bool { return r.b.GetCurrentRevision() >= exp })
+	ok := lib.WaitUntil(15*time.Second, func() bool { return r.b.GetCurrentRevision() >= exp })
 	if ok && r.heldAt == 0 && r.retryHeld == 0 {
 		// the queue push of an unknown event precedes the commit of its revision; nothing more to wait for
 	}
@@ -498,7 +498,7 @@ func (r *Runner) Exec(st Step) (o Obs) {
 		if armed && o.Class == "uncertain" && r.heldAt == 0 {
 			// the sequencer parks when it classifies this write's event
 			r.heldAt = r.dealt
-			if r.retryHeld == 0 && !r.waitParked("seq", 3*time.Second) {
+			if r.retryHeld == 0 && !r.waitParked("seq", 15*time.Second) {
 				r.failure = "sequencer did not reach the held unknown event"
 			}
 		}
@@ -524,7 +524,7 @@ func (r *Runner) Exec(st Step) (o Obs) {
 		r.splitRetry = st.Kind == "rget"
 		r.lastState = ""
 		r.resume("retry")
-		if !r.waitParked("retry", 3*time.Second) {
+		if !r.waitParked("retry", 15*time.Second) {
 			r.failure = "retry iteration did not come back"
 		}
 		r.retryFinished(&o, st.Kind == "rget", false)
@@ -538,7 +538,7 @@ func (r *Runner) Exec(st Step) (o Obs) {
 			}
 			r.lastState = ""
 			r.resume("retry")
-			if !r.waitParked("retry", 3*time.Second) {
+			if !r.waitParked("retry", 15*time.Second) {
 				r.failure = "retry iteration did not come back"
 			}
 			r.retryHeld = 0
@@ -569,7 +569,7 @@ func (r *Runner) Exec(st Step) (o Obs) {
 
 // Finish collects the watch: the number of delivered events is known (acknowledged writes + successful repairs).
 func (r *Runner) Finish() []EvObs {
-	lib.WaitUntil(2*time.Second, func() bool {
+	lib.WaitUntil(15*time.Second, func() bool {
 		r.evMu.Lock()
 		defer r.evMu.Unlock()
 		return len(r.events) >= r.expectEv
